@@ -224,7 +224,9 @@ def viability (cfg : Cfg) (train : List (String × Row)) (dev : Option (List (St
   | some d =>
     if !tv then ⟨tv, mf, dr, false, false, true, true, true, true⟩ else
     let gd := grouper cfg d comb
-    let mfd := minFreqOk cfg (gd.map (·.2))
+    -- every group must be observed on the dev sample (repaired: with `min_freq_mod = 0` a group without any dev row used to
+    -- pass the frequency test, so that transform(X_dev) lacked a label)
+    let mfd := minFreqOk cfg (gd.map (·.2)) && (freqs (gd.map (·.2))).all (fun f => decide (0 < f))
     let drd := distinctRates (gd.map (·.2))
     let rr := resolveRanks cfg gt gd
     ⟨tv, mf, dr, true, rr.1 && mfd && drd, mfd, rr.1, drd, rr.2⟩
